@@ -284,7 +284,9 @@ func RecoverFile(path string, o *opt.Options) (db *DB, err error) {
 }
 
 func recoverTable(s *session, o *opt.Options) error {
-	o = dupOptions(o)
+	// Tables hold internal keys: they must be read and rebuilt with the
+	// session's internal-key comparer and filter, not the user's.
+	o = dupOptions(s.o.Options)
 	// Mask StrictReader, lets StrictRecovery doing its job.
 	o.Strict &= ^opt.StrictReader
 
